@@ -3,7 +3,8 @@ package main
 // Facts/Limits.lean (C17): every limits.IMAP Check* call in internal/state and internal/backend
 // with its enclosing function and the kind of database handle the checked value was read from;
 // every mailbox / message insert call with whether the same function checks first; and the shape
-// of State.Create (one check of the bare count, then a loop creating the missing superiors).
+// of State.Create (a check of the bare count, the list of missing superiors + the named mailbox, a check of
+// count + len(list) - 1 after the list is complete and before the loop that creates them).
 // For every Check* call also: which limits value it is called on (a configured `…imapLimits` field, a
 // limits.IMAP parameter, or something else) and which quantity its second argument is (the literal 1, the
 // length of a slice parameter of the function — the list that is then inserted —, or anything else =
@@ -253,8 +254,12 @@ func factsLimits(c *factsCtx, outdir string) error {
 	create := struct {
 		found                                   bool
 		checkCalls                              int
-		checkArgBare, createInLoop, checkInLoop string
-	}{checkArgBare: "unknown", createInLoop: "unknown", checkInLoop: "unknown"}
+		bareChecks, wholeListChecks         int
+		createsOutsideLoop                  int
+		createsBeforeWholeCheck             int
+		countVar, loopOver                  string
+		wholePlaced, createInLoop, checkInLoop string
+	}{wholePlaced: "unknown", createInLoop: "unknown", checkInLoop: "unknown"}
 
 	for _, rel := range []string{"internal/state", "internal/backend"} {
 		for _, f := range c.parseDir(rel) {
@@ -310,6 +315,16 @@ func factsLimits(c *factsCtx, outdir string) error {
 						s.limitsExpr = types.ExprString(sel.X)
 						s.limitsKind = limitsKindOf(sel.X, append(stack, n))
 						s.quantity = "n/a"
+						if sel.Sel.Name == "CheckMailBoxCount" && len(call.Args) == 1 {
+							// the check refuses when its argument is >= the maximum: a bare count asks for room for one
+							// more mailbox, `count + len(L) - 1` for room for len(L) more
+							s.quantity = "unknown"
+							if _, ok := call.Args[0].(*ast.Ident); ok {
+								s.quantity = "one-more"
+							} else if _, l, ok := lfCountPlusLenMinusOne(call.Args[0]); ok {
+								s.quantity, s.quantityOf = "len-of-list-more", l
+							}
+						}
 						if len(call.Args) == 2 {
 							s.quantity = "unknown"
 							switch q := call.Args[1].(type) {
@@ -426,6 +441,45 @@ func factsLimits(c *factsCtx, outdir string) error {
 						}
 						return false
 					}
+					// the variable holding tx.GetMailboxCount(), the slice the creating loop ranges over, the last
+					// statement that appends to that slice
+					var creatingLoop *ast.RangeStmt
+					for _, rs := range loops {
+						creating := false
+						ast.Inspect(rs.Body, func(n ast.Node) bool {
+							if call, ok := n.(*ast.CallExpr); ok && calleeName(call) == "actionCreateMailbox" {
+								creating = true
+							}
+							return true
+						})
+						if creating && creatingLoop == nil {
+							creatingLoop = rs
+							if id, ok := rs.X.(*ast.Ident); ok {
+								create.loopOver = id.Name
+							}
+						}
+					}
+					var lastAppend token.Pos
+					ast.Inspect(fd, func(n ast.Node) bool {
+						as, ok := n.(*ast.AssignStmt)
+						if !ok || len(as.Lhs) == 0 || len(as.Rhs) != 1 {
+							return true
+						}
+						lhs, ok := as.Lhs[0].(*ast.Ident)
+						if !ok {
+							return true
+						}
+						if call, ok := as.Rhs[0].(*ast.CallExpr); ok {
+							if calleeName(call) == "GetMailboxCount" {
+								create.countVar = lhs.Name
+							}
+							if id, ok := call.Fun.(*ast.Ident); ok && id.Name == "append" && create.loopOver != "" && lhs.Name == create.loopOver && as.End() > lastAppend {
+								lastAppend = as.End()
+							}
+						}
+						return true
+					})
+					var wholeCheckPos token.Pos
 					nCreate := 0
 					lfWalkStack(fd, func(n ast.Node, stack []ast.Node) {
 						call, ok := n.(*ast.CallExpr)
@@ -436,10 +490,16 @@ func factsLimits(c *factsCtx, outdir string) error {
 						case "CheckMailBoxCount":
 							create.checkCalls++
 							if len(call.Args) == 1 {
-								if _, ok := call.Args[0].(*ast.Ident); ok {
-									create.checkArgBare = "true"
-								} else {
-									create.checkArgBare = "false"
+								if id, ok := call.Args[0].(*ast.Ident); ok && id.Name == create.countVar {
+									create.bareChecks++
+								} else if cv, l, ok := lfCountPlusLenMinusOne(call.Args[0]); ok && cv == create.countVar && l == create.loopOver && l != "" {
+									create.wholeListChecks++
+									wholeCheckPos = call.Pos()
+									if creatingLoop != nil && lastAppend != token.NoPos && call.Pos() > lastAppend && call.End() < creatingLoop.Pos() {
+										create.wholePlaced = "true"
+									} else {
+										create.wholePlaced = "false"
+									}
 								}
 							}
 							if inLoop(call.Pos(), true) {
@@ -449,6 +509,12 @@ func factsLimits(c *factsCtx, outdir string) error {
 							}
 						case "actionCreateMailbox":
 							nCreate++
+							if creatingLoop == nil || call.Pos() < creatingLoop.Body.Pos() || call.Pos() > creatingLoop.Body.End() {
+								create.createsOutsideLoop++
+							}
+							if wholeCheckPos == token.NoPos || call.Pos() < wholeCheckPos {
+								create.createsBeforeWholeCheck++
+							}
 							if inLoop(call.Pos(), false) {
 								create.createInLoop = "true"
 							} else if create.createInLoop == "unknown" {
@@ -478,7 +544,7 @@ func factsLimits(c *factsCtx, outdir string) error {
 
 	var b strings.Builder
 	b.WriteString("namespace Gluon.Facts\n\n")
-	b.WriteString("structure LimitCheckSite where\n  file : String\n  line : Nat\n  func : String\n  method : String\n  /-- handle the checked value was read from: \"tx\" (db.Transaction parameter), \"tx-field\" (transaction held in a struct),\n      \"read\" (db.ReadOnly parameter: a read transaction), \"none\" (not a database value), \"unknown\" -/\n  ctx : String\n  args : List String\n  /-- the limits value the check is called on, and its kind: \"configured\" (a field `….imapLimits`, set from gluon.WithIMAPLimits),\n      \"param\" (a limits.IMAP parameter of the function), \"default\" (limits.DefaultLimits()), \"unknown\" -/\n  limits : String\n  limitsKind : String\n  /-- the second argument (how many are about to be added): \"n/a\" (one-argument check), \"one\" (the literal 1),\n      \"len-of-param\" (`len(p)` of the slice parameter `quantityOf` of the function), \"unknown\" (anything else) -/\n  quantity : String\n  quantityOf : String\nderiving DecidableEq, Repr\n\n")
+	b.WriteString("structure LimitCheckSite where\n  file : String\n  line : Nat\n  func : String\n  method : String\n  /-- handle the checked value was read from: \"tx\" (db.Transaction parameter), \"tx-field\" (transaction held in a struct),\n      \"read\" (db.ReadOnly parameter: a read transaction), \"none\" (not a database value), \"unknown\" -/\n  ctx : String\n  args : List String\n  /-- the limits value the check is called on, and its kind: \"configured\" (a field `….imapLimits`, set from gluon.WithIMAPLimits),\n      \"param\" (a limits.IMAP parameter of the function), \"default\" (limits.DefaultLimits()), \"unknown\" -/\n  limits : String\n  limitsKind : String\n  /-- how many are about to be added.  Two-argument checks: \"one\" (the literal 1), \"len-of-param\" (`len(p)` of the slice\n      parameter `quantityOf` of the function).  `CheckMailBoxCount(x)` (refuses when x >= maximum): \"one-more\" (x is a bare count),\n      \"len-of-list-more\" (x is `count + len(L) - 1`, L = `quantityOf`).  \"n/a\" (CheckUIDValidity), \"unknown\" (anything else) -/\n  quantity : String\n  quantityOf : String\nderiving DecidableEq, Repr\n\n")
 	b.WriteString("/-- every `limits.IMAP.Check*` call in internal/state and internal/backend -/\ndef limitCheckSites : List LimitCheckSite := [\n")
 	for i, s := range checks {
 		sep := ","
@@ -505,9 +571,11 @@ func factsLimits(c *factsCtx, outdir string) error {
 			leanStr(s.file), s.line, leanStr(s.fn), leanStr(s.call), leanStr(s.kind), leanStr(s.handle), s.localCheck, leanStr(s.what), sep)
 	}
 	b.WriteString("]\n\n")
-	b.WriteString("structure CreateShape where\n  found : Bool\n  checkCalls : Nat\n  /-- the checked value is the bare `GetMailboxCount()` result (nothing added for the mailboxes about to be created) -/\n  checkArgBare : Option Bool\n  /-- `actionCreateMailbox` is called in a loop (missing superiors + the named mailbox) -/\n  createInLoop : Option Bool\n  /-- the check is repeated inside that loop -/\n  checkInLoop : Option Bool\nderiving DecidableEq, Repr\n\n")
-	fmt.Fprintf(&b, "/-- shape of `State.Create` (internal/state/state.go) -/\ndef stateCreateShape : CreateShape :=\n  { found := %v, checkCalls := %d, checkArgBare := %s, createInLoop := %s, checkInLoop := %s }\n\n",
-		create.found, create.checkCalls, leanOptBool(create.checkArgBare), leanOptBool(create.createInLoop), leanOptBool(create.checkInLoop))
+	b.WriteString("structure CreateShape where\n  found : Bool\n  checkCalls : Nat\n  /-- the variable holding `tx.GetMailboxCount()` and the slice the creating loop ranges over -/\n  countVar : String\n  loopOver : String\n  /-- checks of the bare count (room for one more mailbox) -/\n  bareChecks : Nat\n  /-- checks of `countVar + len(loopOver) - 1` (room for every mailbox of the list) -/\n  wholeListChecks : Nat\n  /-- that check stands after the last `append` to the list and before the creating loop -/\n  wholeCheckAfterListBeforeLoop : Option Bool\n  /-- `actionCreateMailbox` calls (they tell the connector) outside the creating loop / textually before the whole-list check -/\n  createsOutsideLoop : Nat\n  createsBeforeWholeCheck : Nat\n  /-- `actionCreateMailbox` is called in a loop (missing superiors + the named mailbox) -/\n  createInLoop : Option Bool\n  /-- the check is repeated inside that loop -/\n  checkInLoop : Option Bool\nderiving DecidableEq, Repr\n\n")
+	fmt.Fprintf(&b, "/-- shape of `State.Create` (internal/state/state.go) -/\ndef stateCreateShape : CreateShape :=\n  { found := %v, checkCalls := %d, countVar := %s, loopOver := %s, bareChecks := %d, wholeListChecks := %d,\n    wholeCheckAfterListBeforeLoop := %s, createsOutsideLoop := %d, createsBeforeWholeCheck := %d,\n    createInLoop := %s, checkInLoop := %s }\n\n",
+		create.found, create.checkCalls, leanStr(create.countVar), leanStr(create.loopOver), create.bareChecks, create.wholeListChecks,
+		leanOptBool(create.wholePlaced), create.createsOutsideLoop, create.createsBeforeWholeCheck,
+		leanOptBool(create.createInLoop), leanOptBool(create.checkInLoop))
 	b.WriteString("structure LimitArgSite where\n  file : String\n  line : Nat\n  func : String\n  callee : String\n  arg : String\n  /-- \"configured\" (a field `….imapLimits`), \"param\" (passed through), \"default\" (limits.DefaultLimits()), \"unknown\" -/\n  kind : String\nderiving DecidableEq, Repr\n\n")
 	b.WriteString("/-- every argument passed for a `limits.IMAP` parameter of a function of internal/state, internal/backend,\n    internal/session and the root package -/\ndef limitArgSites : List LimitArgSite := [\n")
 	for i, s := range argSites {
@@ -535,4 +603,35 @@ func factsLimits(c *factsCtx, outdir string) error {
 
 func init() {
 	factGens = append(factGens, factGen{"Limits", factsLimits})
+}
+
+// lfCountPlusLenMinusOne recognises `c + len(L) - 1` (c, L identifiers) and returns c and L.
+func lfCountPlusLenMinusOne(e ast.Expr) (string, string, bool) {
+	sub, ok := e.(*ast.BinaryExpr)
+	if !ok || sub.Op != token.SUB {
+		return "", "", false
+	}
+	if one, ok := sub.Y.(*ast.BasicLit); !ok || one.Kind != token.INT || one.Value != "1" {
+		return "", "", false
+	}
+	add, ok := sub.X.(*ast.BinaryExpr)
+	if !ok || add.Op != token.ADD {
+		return "", "", false
+	}
+	c, ok := add.X.(*ast.Ident)
+	if !ok {
+		return "", "", false
+	}
+	ln, ok := add.Y.(*ast.CallExpr)
+	if !ok || len(ln.Args) != 1 {
+		return "", "", false
+	}
+	if id, ok := ln.Fun.(*ast.Ident); !ok || id.Name != "len" {
+		return "", "", false
+	}
+	l, ok := ln.Args[0].(*ast.Ident)
+	if !ok {
+		return "", "", false
+	}
+	return c.Name, l.Name, true
 }
